@@ -128,9 +128,182 @@ def synth(req):
 
 # ------------------------------------------------------------------------------------------ part A: templates
 def templates(req):
+    """Circuit templates of the synthesis with FORMAL angles -> Coq obligations (cols_ok ... = true).
+    The numerical angle extraction is replaced by formal oracles (harness-process patches of the *_rotation_angles
+    functions and convert_to_su2); the operator emission is PennyLane's own code."""
     sys.path.insert(0, "/verif/harness")
-    from c14_templates import build
-    return build(req)
+    import qsym
+    from qsym import Lin, Sym, Fr, set_cfg, NotExtractable
+    from qx import install_patches, op_matrix_sym, g_mat, g_nats, g_gate, s_mul, s_adj, mat_to_sym, num_mat
+    from gradlib import fvar, tape_gates
+    from pennylane.ops.op_math.decompositions import unitary_decompositions as ud
+    from pennylane.templates.subroutines import select_pauli_rot as spr
+    from pennylane.templates.state_preparations.mottonen import compute_theta
+    install_patches()
+    rng = np.random.default_rng(req.get("seed", 0))
+    obl, info = [], []
+    N = 16
+
+    def lv(j, q=1):
+        return Lin.var(j).scale(Fr(q))
+
+    def E(l):          # exp(i l)
+        return (l * 1j).exp()
+
+    def zyz(v0, v1, v2):       # RZ(v2) RY(v1) RZ(v0): the closed form assumed by zyz_rotation_angles
+        c, s = (v1.scale(Fr(1, 2))).cos(), (v1.scale(Fr(1, 2))).sin()
+        p, m = (v0 + v2).scale(Fr(1, 2)), (v0 - v2).scale(Fr(1, 2))
+        return [[E(-p) * c, -(E(m) * s)], [E(-m) * s, E(p) * c]]
+
+    def zxz(v0, v1, v2):       # RZ(v2) RX(v1) RZ(v0): closed form assumed by zxz_rotation_angles (lam = v0, phi = v2)
+        c, s = (v1.scale(Fr(1, 2))).cos(), (v1.scale(Fr(1, 2))).sin()
+        p, m = (v2 + v0).scale(Fr(1, 2)), (v2 - v0).scale(Fr(1, 2))
+        mi = Sym.of(-1j)
+        return [[E(-p) * c, mi * E(-m) * s], [mi * E(m) * s, E(p) * c]]
+
+    def const(M):
+        return [[Sym.of(complex(x)) for x in row] for row in np.asarray(M)]
+
+    def scal(c, M):
+        return [[c * x for x in row] for row in M]
+
+    def emit(name, n, gates, ows, M, D, nv, how):
+        spot = 0.0
+        for _ in range(3):          # numeric spot check of the extracted objects against each other
+            th = list(rng.uniform(-7, 7, size=max(nv, 1)))
+            full = np.eye(1 << n, dtype=complex)
+            for ws, S in gates:
+                G = num_mat(S, th)
+                k = len(ws)
+                T = G.reshape((2,) * (2 * k))
+                F = full.reshape((2,) * n + (1 << n,))
+                F = np.tensordot(T, F, axes=(list(range(k, 2 * k)), ws))
+                F = np.moveaxis(F, list(range(k)), ws)
+                full = F.reshape(1 << n, 1 << n)
+            spot = max(spot, float(np.abs(full - num_mat(M, th)).max())) if len(ows) == n and ows == list(range(n)) else spot
+        circ = "[" + ";\n  ".join(g_gate(w, S) for w, S in gates) + "]"
+        stmt = f"cols_ok {N // 2}%Z {n}%nat\n  {circ}\n  {g_nats(ows)}\n  {g_mat(M)}\n  (all_cols {n}%nat) = true"
+        obl.append({"name": name, "stmt": stmt, "D": D, "nvars": nv, "how": how, "n_gates": len(gates), "numeric_residual": spot})
+
+    def gates_of(ops, wo):
+        return tape_gates(qp.tape.QuantumScript(ops), wo)
+
+    # ---------------- one-qubit conventions through the real one_qubit_decomposition
+    set_cfg(N, 4, 4)
+    formal = lambda *_a, **_k: (fvar(0), fvar(1), fvar(2), fvar(3))
+    saved = {k: getattr(ud, k) for k in ("zyz_rotation_angles", "xyx_rotation_angles", "xzx_rotation_angles", "zxz_rotation_angles")}
+    saved_su2, saved_allclose = qp.math.convert_to_su2, qp.math.allclose
+    try:
+        for k in saved:
+            setattr(ud, k, formal)
+        qp.math.convert_to_su2 = lambda U, *a, **k: (U, fvar(3))
+
+        def generic_allclose(x, *a, **k):
+            if isinstance(x, np.ndarray) and x.dtype == object:
+                return False          # a formal angle is generic: not identically equal to a constant
+            return saved_allclose(x, *a, **k)
+        qp.math.allclose = generic_allclose
+        r2 = 1 / math.sqrt(2)
+        C1m = np.array([[1, -1], [1, 1]]) * r2
+        C2m = np.array([[1, -1j], [1, 1j]]) * r2
+        v = [Lin.var(j) for j in range(4)]
+        closed = {"ZYZ": zyz(v[0], v[1], v[2]), "rot": zyz(v[0], v[1], v[2]), "ZXZ": zxz(v[0], v[1], v[2]),
+                  "XYX": s_mul(const(C1m), s_mul(zyz(v[0], v[1], v[2]), const(C1m.conj().T))),
+                  "XZX": s_mul(const(C2m), s_mul(zyz(v[0], v[1], v[2]), const(C2m.conj().T)))}
+        for rot in ("ZYZ", "XYX", "XZX", "ZXZ", "rot"):
+            for gp in (True, False):
+                ops = qp.ops.one_qubit_decomposition(np.eye(2, dtype=complex), 0, rotations=rot, return_global_phase=gp)
+                M = closed[rot]
+                if gp:
+                    M = scal(E(v[3]), M)
+                emit(f"one_{rot}_{'phase' if gp else 'su2'}", 1, gates_of(ops, [0]), [0], M, 4, 4,
+                     f"real one_qubit_decomposition(rotations={rot!r}, return_global_phase={gp}) with formal angle oracles: {[o.name for o in ops]}")
+    finally:
+        for k, f in saved.items():
+            setattr(ud, k, f)
+        qp.math.convert_to_su2, qp.math.allclose = saved_su2, saved_allclose
+    # rot, theta = 0 branch: RZ(phi + omega) (the modulo 4 pi of the code is not formal: constructed)
+    emit("one_rot_theta0", 1, gates_of([qp.RZ(fvar(0) + fvar(2), wires=0)], [0]), [0], zyz(v[0], Lin.of(0), v[2]), 4, 4, "constructed: RZ(phi+omega) vs closed form at theta=0")
+    # basis-change relations quoted in xyx_/xzx_rotation_angles
+    for nm, Cm, src, dst in (("xyx_rx", C1m, qp.RZ, qp.RX), ("xyx_ry", C1m, qp.RY, qp.RY), ("xzx_rx", C2m, qp.RZ, qp.RX), ("xzx_rz", C2m, qp.RY, qp.RZ)):
+        gates = [([0], const(Cm.conj().T))] + gates_of([src(fvar(0), wires=0)], [0]) + [([0], const(Cm))]
+        emit("basis_" + nm, 1, gates, [0], op_matrix_sym(__import__("gradlib").to_batched(dst(fvar(0), wires=0))), 4, 4, f"C {src.__name__}(t) C^dagger = {dst.__name__}(t)")
+    # ---------------- two-qubit templates
+    with AnnotatedQueue() as q:
+        ud._central_circuit(fvar(0), fvar(1), fvar(2), qp.wires.Wires([0, 1]))
+        qp.GlobalPhase(fvar(3))
+    a_, b_ = (v[0] + v[1]).scale(Fr(1, 2)), (v[0] - v[1]).scale(Fr(1, 2))
+    d_, e_ = v[2].scale(Fr(1, 2)) + v[3], v[2].scale(Fr(1, 2)) - v[3]
+    O = Sym.of(0)
+    C1 = [[E(-d_) * a_.cos(), O, O, -(E(-d_) * a_.sin())], [O, E(e_) * b_.sin(), E(e_) * b_.cos(), O],
+          [O, E(e_) * b_.cos(), -(E(e_) * b_.sin()), O], [E(-d_) * a_.sin(), O, O, E(-d_) * a_.cos()]]
+    emit("two_central_3cnot", 2, gates_of(q.queue, [0, 1]), [0, 1], C1, 4, 4, "real _central_circuit(a,b,d) + GlobalPhase(e) vs the matrix C1 of the _decompose_3_cnots docstring")
+    # 2-CNOT kernel: emitted ops of _decompose_2_cnots (step 6) vs the matrix V built in _find_so4_decomposition
+    from gradlib import to_batched
+    CN10 = np.array([[1, 0, 0, 0], [0, 0, 0, 1], [0, 0, 1, 0], [0, 1, 0, 0]], dtype=complex)
+    rz, rx = op_matrix_sym(to_batched(qp.RZ(fvar(0), wires=0))), op_matrix_sym(to_batched(qp.RX(fvar(1), wires=0)))
+    kron = [[x * y for x in ra for y in rb] for ra in rz for rb in rx]
+    V = s_mul(const(CN10), s_mul(kron, const(CN10)))
+    ops2 = [qp.CNOT([1, 0]), qp.RZ(fvar(0), wires=0), qp.RX(fvar(1), wires=1), qp.CNOT([1, 0])]
+    emit("two_kernel_2cnot", 2, gates_of(ops2, [0, 1]), [0, 1], V, 4, 4, "constructed: CNOT10 RZ(a)xRX(b) CNOT10 ops vs V = CNOT10 kron(RZ,RX) CNOT10")
+    # 1-CNOT: the constant V of _decompose_1_cnot is E^dagger (SWAP CNOT01) E
+    Vc = np.array([[0.5, 0.5j, 0.5j, -0.5], [-0.5j, 0.5, -0.5, -0.5j], [-0.5j, -0.5, 0.5, -0.5j], [0.5, -0.5j, -0.5j, -0.5]])
+    CN01 = np.array([[1, 0, 0, 0], [0, 1, 0, 0], [0, 0, 0, 1], [0, 0, 1, 0]], dtype=complex)
+    g1 = [([0, 1], const(ud.E)), ([0, 1], const(CN01)), ([0, 1], const(ud.SWAP)), ([0, 1], const(ud.E_dag))]
+    emit("two_const_1cnot", 2, g1, [0, 1], const(Vc), 4, 4, "constants of _decompose_1_cnot: V = E^dagger SWAP CNOT01 E (magic-basis image of the 1-CNOT core)")
+    # ---------------- multiplexer (SelectPauliRot as used by multi_qubit_decomp_rule: target wire 0, controls 1..k)
+    for k in req.get("mux_sizes", [1, 2]):
+        nv = 1 << k
+        set_cfg(N, 2 << k, nv)
+        alpha_f = np.empty((nv,), dtype=object)
+        for j in range(nv):
+            alpha_f[j] = Lin.var(j)
+        theta_f = compute_theta(alpha_f, num_qubits=k)        # the code's linear transform, on formal angles
+        for axis in ("Z", "Y", "X"):
+            alpha_n = rng.uniform(0.5, 3.0, size=nv)
+            theta_n = np.asarray(compute_theta(alpha_n, num_qubits=k))
+            ctrl, tgt = list(range(1, k + 1)), 0
+            with AnnotatedQueue() as q:
+                spr.decompose_select_pauli_rot(alpha_n, control_wires=ctrl, target_wire=tgt, rot_axis=axis)
+            tape = qp.tape.QuantumScript(q.queue)
+            elem = {"RZ", "CNOT", "Hadamard", "S", "Adjoint(S)"}
+            for _ in range(6):
+                if all(o.name in elem for o in tape.operations):
+                    break
+                new = []
+                for o in tape.operations:
+                    new.extend([o] if o.name in elem else o.decomposition())
+                tape = qp.tape.QuantumScript(new)
+            ops, used = [], []
+            for o in tape.operations:
+                if o.name == "RZ":
+                    val = float(o.data[0])
+                    i = int(np.argmin(np.abs(theta_n - val)))
+                    if abs(theta_n[i] - val) > 1e-12 or i in used:
+                        raise NotExtractable("emitted RZ angle is not one of compute_theta's outputs")
+                    used.append(i)
+                    a = np.empty((), dtype=object)
+                    a[()] = theta_f[i]
+                    ops.append(qp.RZ(a, wires=o.wires))
+                else:
+                    ops.append(o)
+            wo = ctrl + [tgt]
+            d = 2 << k
+            M = [[Sym.of(0)] * d for _ in range(d)]
+            for j in range(nv):
+                h = Lin.var(j).scale(Fr(1, 2))
+                if axis == "Z":
+                    blk = [[E(-h), Sym.of(0)], [Sym.of(0), E(h)]]
+                elif axis == "Y":
+                    blk = [[h.cos(), -h.sin()], [h.sin(), h.cos()]]
+                else:
+                    blk = [[h.cos(), Sym.of(-1j) * h.sin()], [Sym.of(-1j) * h.sin(), h.cos()]]
+                for r in range(2):
+                    for c in range(2):
+                        M[2 * j + r][2 * j + c] = blk[r][c]
+            emit(f"mux_{axis}_{k}", k + 1, gates_of(ops, wo), list(range(k + 1)), M, 2 << k, nv,
+                 f"real decompose_select_pauli_rot (numeric run, {len(used)} RZ angles identified with the real compute_theta on formal angles) vs block-diagonal R{axis}(alpha_j)")
+    return {"obligations": obl}
 
 
 def main():
